@@ -73,6 +73,7 @@ pub struct ConnState {
     pub served_by: Option<String>,
     pub in_process: bool,
     pub stage_after_read: bool,
+    pub read_timeout: Option<std::time::Duration>,
 }
 
 #[derive(Clone, Debug)]
@@ -104,6 +105,11 @@ pub struct State {
     pub sync_points: u64,
     pub yields_taken: u64,
     pub last_conn: Option<usize>,
+    pub timer_calls: u64,
+    pub sim_clock_ns: u64,
+    pub clock_reads: u64,
+    /// which connection each worker thread is handling right now (by thread name)
+    pub serving: BTreeMap<String, usize>,
     pub in_process: usize,
     pub reach: BTreeMap<&'static str, u64>,
     // pool engine
@@ -243,6 +249,21 @@ impl World {
         self.switch();
     }
 
+    /// simulated CLOCK_MONOTONIC / CLOCK_REALTIME in nanoseconds: advances a little on every read
+    /// and now and then jumps ahead by up to two minutes (time passes while a thread is not running)
+    pub fn clock_read(&self, realtime: bool) -> Option<u64> {
+        let mut st = self.st.try_lock().ok()?;
+        st.clock_reads += 1;
+        let h = mix(self.sc.sched.seed ^ 0xc10c, st.clock_reads);
+        st.sim_clock_ns += 1_000;
+        if h % 16 == 0 {
+            st.sim_clock_ns += 1_000_000 + (h >> 8) % 120_000_000_000;
+            st.reach("clock_jump");
+        }
+        let base: u64 = if realtime { 1_700_000_000_000_000_000 } else { 1_000_000_000_000_000 };
+        Some(base + st.sim_clock_ns)
+    }
+
     /// plain scheduling point (not a yield request, which PCT would read as "demote me")
     pub fn switch(&self) {
         shuttle::thread::sleep(std::time::Duration::from_millis(0));
@@ -323,6 +344,10 @@ impl Backend for SimBackend {
             if let Some(t) = st.threads.iter_mut().rev().find(|t| t.name == name && t.alive) {
                 t.alive = false;
                 t.panic = rec;
+            }
+            if name == "accept" && panicked && !st.world_over {
+                // the accept loop is gone: in production the process is left without a listener
+                st.server_exited = true;
             }
             st.note(CV_MAIN);
         });
@@ -408,7 +433,8 @@ impl Backend for SimBackend {
                 if idx == 0 {
                     let c = &mut st.conns[stream];
                     c.first_read_buf = buf.len();
-                    c.served_by = Some(who);
+                    c.served_by = Some(who.clone());
+                    st.serving.insert(who, stream);
                     c.delivered_before_first_read = c.inbound.len();
                     if !c.in_process {
                         c.in_process = true;
@@ -467,6 +493,24 @@ impl Backend for SimBackend {
                 st.reach("read_eof");
                 return Some(Ok(0));
             }
+            if c.read_timeout.is_some() && !c.probe {
+                // SO_RCVTIMEO is set and nothing has arrived: the timer may fire
+                st.timer_calls += 1;
+                let rate = match mix(world().sc.sched.seed, 0x71_3e5) % 4 {
+                    0 => 0,
+                    1 | 2 => 2,
+                    _ => 5,
+                };
+                if mix(world().sc.sched.seed ^ 0x7173, st.timer_calls) % 8 < rate {
+                    let c = &mut st.conns[stream];
+                    c.reads.push(-1);
+                    c.fired.push("read_timeout".into());
+                    st.reach("read_timeout_fired");
+                    st.log("read_timeout", stream, 0);
+                    return Some(Err(IoKind::WouldBlock.to_error()));
+                }
+            }
+            let c = &mut st.conns[stream];
             if !c.server_waiting_read {
                 c.server_waiting_read = true;
                 st.note(CV_AUX);
@@ -612,6 +656,40 @@ impl Backend for SimBackend {
         w.with(|st| {
             st.conns[stream].handles += 1;
             Ok(stream)
+        })
+    }
+
+    fn timer_fires(&self, what: &'static str) -> bool {
+        let w = match WORLD.get() {
+            Some(w) => w,
+            None => return false,
+        };
+        w.with(|st| {
+            st.timer_calls += 1;
+            // per scenario: timers never fire, fire sometimes, fire often (a pure function of the
+            // scenario's seed and the call count)
+            let rate = match mix(w.sc.sched.seed, 0x71_3e5) % 4 {
+                0 => 0,
+                1 | 2 => 2,
+                _ => 5,
+            };
+            let fires = mix(w.sc.sched.seed ^ 0x7173, st.timer_calls) % 8 < rate;
+            if fires {
+                st.reach("timer_fired");
+                st.log("timer_fires", usize::MAX, hash_str(what));
+            }
+            fires
+        })
+    }
+
+    fn set_timeout(&self, stream: usize, read: bool, timeout: Option<std::time::Duration>) -> io::Result<()> {
+        let w = world();
+        w.with(|st| {
+            if read {
+                st.conns[stream].read_timeout = timeout;
+            }
+            st.log("set_timeout", stream, read as u64);
+            Ok(())
         })
     }
 
